@@ -73,8 +73,9 @@ type input struct {
 	Behaviours [][]step `json:"behaviours"`
 	NewState   []bool   `json:"newstate"`
 	// concurrency test only
-	Readers int `json:"readers"`
-	Iters   int `json:"iters"`
+	Offsets []uint64 `json:"offsets"`
+	Readers int      `json:"readers"`
+	Iters   int      `json:"iters"`
 }
 
 type handle struct {
@@ -91,6 +92,8 @@ type run struct {
 	views   []*handle
 	applied uint64
 	stepNo  int
+	off     uint64 // the model's block n is the real block n+off
+	ret     retention
 }
 
 type mismatch struct {
@@ -102,14 +105,19 @@ func mm(key, what string, exp, obs any) *mismatch {
 	return &mismatch{key: key, what: what, expected: exp, observed: obs}
 }
 
-func (r *run) maxNum() uint64 { return uint64(r.w.tb.MaxHead) + 8 }
+func (r *run) maxNum() uint64 { return uint64(r.w.tb.MaxHead) + 8 + r.off }
 
 // applyUpdate performs one ChainStorage.ApplyUpdate call and compares its result.
 func (r *run) applyUpdate(a *action, res *result) *mismatch {
 	r.applied++
+	r.w.shape = r.applied
 	update := r.w.update(a.U, r.applied)
 	affected, err := r.storage.ApplyUpdate(update, a.Num, a.Base, a.Oldest, r.w.classes(a.Cls))
-	return r.checkApplyResult(a.U.Kind, res.St, res.Tag, res.Aff, affected, err)
+	if m := r.checkApplyResult(a.U.Kind, res.St, res.Tag, res.Aff, affected, err); m != nil {
+		return m
+	}
+	r.retainEntry(affected, "ApplyUpdate ("+res.Tag+")")
+	return nil
 }
 
 func (r *run) checkApplyResult(kind, st, tag string, aff *slot, affected *pending.PreConfirmed, err error) *mismatch {
@@ -325,6 +333,7 @@ func (r *run) checkReads(i int, v *viewT, rd *readsT, ctx string, withBefore boo
 				return mm("classat:"+id, fmt.Sprintf("view %d block %d: class %s lookup differs", i, s.Num, id), rd.Cl[j][id], got)
 			}
 		}
+		scribble(state)
 		_ = closer()
 		if !withBefore {
 			continue
@@ -339,6 +348,7 @@ func (r *run) checkReads(i int, v *viewT, rd *readsT, ctx string, withBefore boo
 				_ = bcl()
 				return m
 			}
+			scribble(bs)
 			_ = bcl()
 		}
 		if _, _, berr := h.reader.PreConfirmedStateBeforeIndexAt(s.Num, uint(len(s.Txs)+1), bc); !errors.Is(berr, pending.ErrTransactionIndexOutOfBounds) {
@@ -362,6 +372,7 @@ func (r *run) checkReads(i int, v *viewT, rd *readsT, ctx string, withBefore boo
 		if !tx.Hash().Equal(hash) || !rc.TransactionHash.Equal(hash) || int(num) != want {
 			return mm("txlookup:wrong", fmt.Sprintf("view %d: lookup of transaction %d", i, t+1), want, fmt.Sprintf("block %d tx %s", num, tx.Hash()))
 		}
+		r.retainLookup(tx, rc)
 	}
 	return nil
 }
@@ -379,6 +390,10 @@ func (w *world) baseNote(base stateReads, j int, v *viewT) string {
 
 // apply executes one step of a storage-level behaviour and runs every comparison.
 func (r *run) apply(st *step) *mismatch {
+	return guarded(st.A.Name, func() *mismatch { return r.applyStep(st) })
+}
+
+func (r *run) applyStep(st *step) *mismatch {
 	a := &st.A
 	ctx := a.Name
 	if st.Res.Tag != "" {
@@ -411,11 +426,13 @@ func (r *run) apply(st *step) *mismatch {
 		if err := r.w.headAdvance(r.node, len(st.Canon), a.V); err != nil {
 			return mm("harness:head-advance", err.Error(), nil, nil)
 		}
+		r.ret.gen++
 		fullReads = true
 	case "HeadRevert":
 		if err := r.node.BC.RevertHead(); err != nil {
 			return mm("harness:head-revert", err.Error(), nil, nil)
 		}
+		r.ret.gen++
 		fullReads = true
 	default:
 		return mm("harness:unknown-action", a.Name, nil, nil)
@@ -439,6 +456,10 @@ func (r *run) readerChain(res *result) *mismatch {
 		}
 		if v, err = preconfirmed.NewChain(&empty); err != nil {
 			return mm("readerchain:newchain", "NewChain: "+err.Error(), nil, nil)
+		}
+		n := head.Number + 1
+		if jerr := r.placeholderSysDiff(n)(empty.StateUpdate.StateDiff.StorageDiffs[*core.BlockHashStorageContract]); jerr != nil {
+			return mm("readerchain:placeholder-registry", jerr.Error(), nil, nil)
 		}
 	}
 	if fallback != res.Fb || v.Length() != res.Len {
@@ -474,15 +495,31 @@ func (r *run) compareAll(st *step, ctx string, fullReads bool) *mismatch {
 	if m := r.checkChain(st, ctx+":after-reads"); m != nil {
 		return m
 	}
-	return nil
+	if fullReads { // (re-)open the retained state readers: a view was created or the base moved
+		for i := range r.views {
+			if n := len(st.Views[i].Slots); n > 0 {
+				r.retainState(i, st.Views[i].Slots[n-1].Num)
+			}
+		}
+	}
+	return r.checkRetained(ctx)
 }
 
-func newRun(w *world, newState bool) (*run, error) {
-	node, err := w.newCanon(newState)
+func newRun(w *world, newState bool, off uint64) (*run, error) {
+	node, err := w.newCanonAt(newState, off)
 	if err != nil {
 		return nil, err
 	}
-	return &run{w: w, node: node, storage: preconfirmed.NewChainStorage()}, nil
+	r := &run{w: w, node: node, storage: preconfirmed.NewChainStorage(), off: off}
+	w.sysJudge = func(n uint64, m map[felt.Felt]*felt.Felt) error { return r.placeholderSysDiff(n)(m) }
+	return r, nil
+}
+
+func offsetOf(in *input, bi int) uint64 {
+	if bi < len(in.Offsets) {
+		return in.Offsets[bi]
+	}
+	return 0
 }
 
 func TestPreconfReplay(t *testing.T) {
@@ -503,18 +540,20 @@ func TestPreconfReplay(t *testing.T) {
 	tags := map[string]int{}
 	for bi, beh := range in.Behaviours {
 		newState := bi < len(in.NewState) && in.NewState[bi]
-		r, err := newRun(w, newState)
+		off := offsetOf(&in, bi)
+		r, err := newRun(w, newState, off)
 		if err != nil {
 			t.Fatalf("canonical chain: %v", err)
 		}
+		exec := shifted(beh, off)
 		for si := range beh {
 			r.stepNo = si
-			m := r.apply(&beh[si])
+			m := r.apply(&exec[si])
 			steps++
 			tags[beh[si].A.Name+":"+beh[si].Res.Tag]++
 			if m != nil {
 				out.Diverge(vh.Divergence{Key: m.key, What: m.what, Step: si, Expected: m.expected, Observed: m.observed,
-					Input: vh.J{"tables": in.Tables, "behaviours": [][]step{beh[:si+1]}, "newstate": []bool{newState}}})
+					Input: vh.J{"tables": in.Tables, "behaviours": [][]step{beh[:si+1]}, "newstate": []bool{newState}, "offsets": []uint64{off}}})
 				break
 			}
 		}
